@@ -9,6 +9,7 @@ use std::io::Write;
 fn adapter(name: &str) -> Option<Box<dyn Adapter>> {
     Some(match name {
         "bulkhead" => Box::new(adapters::bulkhead::BulkheadAd::new()),
+        "ratelimiter" => Box::new(adapters::ratelimiter::RateLimiterAd::new()),
         _ => return None,
     })
 }
